@@ -96,6 +96,8 @@ def handle? (st : DriverState) (line : String) : Option (DriverState × String) 
         | "plain_san" => showOutcome E true (Api.formulaeDirty E K U strs)
         | "ext_dirty" => showOutcome E false (Api.extendedDirty E K U st.ctxSets strs)
         | "ext_san" => showOutcome E true (Api.extendedDirty E K U st.ctxSets strs)
+        | "pure_plain_dirty" => showOutcome E false (Api.pureDirty E K false U [] strs)
+        | "pure_ext_dirty" => showOutcome E false (Api.pureDirty E K true U st.ctxSets strs)
         | "unsafe_ex" =>
           match strs with
           | [f] => match Api.unsafeEx E K U f with
